@@ -1,6 +1,6 @@
 #!/bin/bash
 # soak: every check, several seeds, on the unchanged tree; any VIOLATION or non-zero exit is a false alarm / harness bug
-cd /verif; out=build/soak_${1:-quick}.txt; : > $out
+cd "$(dirname "$0")/.."; mkdir -p build; out=build/soak_${1:-quick}.txt; : > $out
 for seed in ${SEEDS:-1 2 3 4 5 6}; do
   for c in C01 C02 C03 C04 C05 C06 C07 C08 C09 C10 C11 C12 C13 C14 C15 C16 C17 C18 C19 C20; do
     r=$(VERIF_SEED=$seed timeout 3000 ./check $c --tier ${1:-quick} 2>/dev/null | grep -v "^KNOWN" | tail -1); ec=$?
